@@ -237,7 +237,9 @@ func dryRun(r *sim.Replica, cs *appstate.AppState, tx *types.Transaction, header
 		res.w.events = hw.Events
 		return res, nil
 	}
-	rec := v.Run(tx, nil, gasLimit, false)
+	// commit = true: the writes land in the throw-away state cs and the buffers are read afterwards (they are kept until
+	// the VM's next Run whether or not the execution succeeded)
+	rec := v.Run(tx, nil, gasLimit, true)
 	res.success, res.err, res.gasUsed = rec.Success, rec.Error, rec.GasUsed
 	hw := v.(*vm.VmImpl).VerifC15Writes()
 	for c, m := range hw.Store {
